@@ -31,7 +31,7 @@ LEVEL_NOTE = ("trusted: the 40-line spec function Eff (precedence CLI > env var 
 RULE = ("one run = (project, configuration); the session's tree (test files, pyproject.toml, persisted externals) must equal the tree of the reference "
         "session with exactly Eff(configuration) approved on the command line; invalid combinations must be usage errors that change nothing; "
         "distinct = (Eff, mode, flag source, environment, answers) tuples x outcome class; non-trivial = configuration with a pending change in every category")
-RULE += " Dimensions added while testing against seeded changes: reference-free clause: a reference to outsourced data written by an approved create / fix has its data persisted (the reference session runs the same code); projects that redefine the built-in shortcuts --fix / --review."
+RULE += " Dimensions added while testing against seeded changes: reference-free clause: a reference to outsourced data written by an approved create / fix has its data persisted (the reference session runs the same code); projects that redefine the built-in shortcuts --fix / --review; reference-free clause: an approved create / fix is no longer pending in a report session on the outcome; two-file projects whose last file has nothing to fix."
 ASSUMPTIONS = ["xdist sessions are sampled (1.8 s each)", "with all tests xfail the storage is not compared when trim is approved (no test file takes part, see C13 S4)"]
 REAL_VS_STUB = {
     "real": ["pytest", "inline_snapshot plugin + library from /repo/src", "os.environ / argv / pyproject.toml read by the real code", "xdist workers (sample)", "black"],
